@@ -7,11 +7,13 @@ exit when the queue is closed and empty; this file is about whether the code's c
 justify that.
 
 enqueuer t (`enqueueCommitRequest`):
-  e0 inflight++ · e1 load closed (⇒ fail) · e2 acquireSpace (space | closeCh ⇒ fail)
+  e0 inflight++ · e1 load closed (⇒ fail) · e2 acquireSpace (space | closeCh ⇒ fail; when both
+  arms of the select are ready either may be taken: `enq` = space arm, `enqc` = closeCh arm)
   e3 load closed (⇒ release space, fail) · e4 ring.Push (ring closed ⇒ release space, fail)
   e5 queueLen++ · e6 items<- · e7 inflight-- (deferred) · ef inflight-- on the failure path
 worker (`acquireItem`, `pop`):
-  w0 tryAcquireItem · w1 load closed · wb select{items, closeCh}
+  w0 tryAcquireItem · w1 load closed · wb select{items, closeCh} (`work` = items arm when ready,
+  `workc` = closeCh arm)
   w2 / w3 the two loads of the exit test `queueLen == 0 && inflight == 0`, in the order given
           by `HCfg.exitOrder` (a non-zero first load goes back to w0: sleep and retry)
   wp ring.Pop, queueLen--, release space
@@ -61,7 +63,9 @@ def HSt.init : HSt := HSt.init0 2 2
 inductive HAct where
   | start (t : Nat)   -- environment: a client enters enqueueCommitRequest
   | enq (t : Nat)
+  | enqc (t : Nat)    -- enqueuer t at e2 takes the `closeCh` arm of acquireSpace's select
   | work
+  | workc             -- the worker at wb takes the `closeCh` arm of its select
   | close
   deriving DecidableEq, Repr
 
@@ -125,7 +129,14 @@ def hstep (c : HCfg) (s : HSt) : HAct → Option HSt
     match s.pcs[t]? with
     | some pc => enqStep s t pc
     | none => none
+  | .enqc t =>
+    -- Go's select chooses among ready arms at random: with a free space AND closeCh closed
+    -- acquireSpace may return either; `enq` is the space arm, this is the closeCh arm
+    match s.pcs[t]? with
+    | some .e2 => if s.closeCh then some (s.setPc t .ef) else none
+    | _ => none
   | .work => workStep c s
+  | .workc => if s.wpc = .wb ∧ s.closeCh then some { s with wpc := .w0 } else none
   | .close =>
     if s.cpc = 0 then some { s with cpc := 1, closed := true }
     else if s.cpc = 1 then some { s with cpc := 2, ringClosed := true }
